@@ -28,6 +28,7 @@ type C15Case struct {
 	History ListHistory `json:"history"`
 	Readers [][]string  `json:"readers,omitempty"` // per goroutine: list of read-only operations
 	Mixed   bool        `json:"mixed,omitempty"`   // element kinds: ints only or mixed incl. nested containers
+	Nested  bool        `json:"nested,omitempty"`  // mapasync: the callback itself runs MapAsync / ForEachAsync on nested containers
 }
 
 var listReadOps = []string{"Get", "GetInt", "TypeOf", "Count", "String", "FormatString", "Clone", "Equals", "SubList", "Concat", "ConcatSelf", "Filter", "FilterInts",
@@ -42,13 +43,14 @@ func GenC15(t *rapid.T) *C15Case {
 	switch pick(t, "sub", 40, 25, 35) {
 	case 0:
 		c.Sub = "foreach"
-		c.N = []int{0, 1, 2, 3, 4, 5, 8, 13, 20, 40, 64, 65, 100, 130}[drawIdx(t, 14, "n")]
+		c.N = []int{0, 1, 2, 3, 4, 5, 8, 13, 20, 40, 64, 65, 100, 130, 257}[drawIdx(t, 15, "n")]
 		for i := 0; i < c.N; i++ {
 			c.Order = append(c.Order, genRaw(t))
 		}
 	case 1:
 		c.Sub = "mapasync"
-		c.N = []int{0, 1, 2, 3, 5, 8, 16, 40, 64, 65, 129}[drawIdx(t, 11, "n")]
+		c.Nested = drawBool(t, "nestedasync")
+		c.N = []int{0, 1, 2, 3, 5, 8, 16, 40, 64, 65, 129, 257}[drawIdx(t, 12, "n")]
 		for i := 0; i < c.N; i++ {
 			c.Yields = append(c.Yields, drawInt(t, 0, 3, "y"))
 		}
@@ -245,7 +247,21 @@ func runGated(c *C15Case, st *Stats) error {
 	return nil
 }
 
+// runMapAsync runs the comparison under a watchdog: a MapAsync whose callbacks use the async
+// variants of nested containers must still return (20 s against microseconds of work; like the
+// C04 watchdog the clock can only turn a hang into a report).
 func runMapAsync(c *C15Case, st *Stats) error {
+	done := make(chan error, 1)
+	go func() { done <- runMapAsyncInner(c, st) }()
+	select {
+	case err := <-done:
+		return err
+	case <-time.After(20 * time.Second):
+		return errf("MapAsync (n=%d, object=%v, nested async callbacks=%v, GOMAXPROCS %d) did not return within 20 s", c.N, c.Object, c.Nested, c.Procs)
+	}
+}
+
+func runMapAsyncInner(c *C15Case, st *Stats) error {
 	n := c.N
 	yields := func(i int) int {
 		if i >= 0 && i < len(c.Yields) {
@@ -265,7 +281,17 @@ func runMapAsync(c *C15Case, st *Stats) error {
 		case float64:
 			return x + 1
 		case at.List:
+			if c.Nested {
+				// the callback itself uses the async variants of the nested container
+				var seen int64
+				x.ForEachAsync(func(j int, y any) { atomic.AddInt64(&seen, int64(j+1)) })
+				return x.MapAsync(func(j int, y any) any { return fmt.Sprintf("%d/%d:%s", seen, j, tagOf(y)) })
+			}
 			return x // shared nested containers are allowed
+		case at.Object:
+			if c.Nested {
+				return x.MapAsync(func(k string, y any) any { return k + "=" + tagOf(y) })
+			}
 		}
 		return fmt.Sprintf("%d:%s", slot, tagOf(v))
 	}
@@ -307,7 +333,12 @@ func runMapAsync(c *C15Case, st *Stats) error {
 			return errf("list MapAsync has %d elements, Map %d", got.Count(), want.Count())
 		}
 		for i := 0; i < want.Count(); i++ {
-			if !ifaceEq(got.Get(i), want.Get(i)) || got.TypeOf(i) != want.TypeOf(i) {
+			same := ifaceEq(got.Get(i), want.Get(i))
+			if !same && c.Nested {
+				// containers created by the callback are distinct instances in the two results: compare content
+				same = fpValue(got.Get(i)) == fpValue(want.Get(i))
+			}
+			if !same || got.TypeOf(i) != want.TypeOf(i) {
 				return errf("list MapAsync[%d] = %s, Map gives %s", i, showAny(got.Get(i)), showAny(want.Get(i)))
 			}
 		}
